@@ -221,7 +221,7 @@ End MEval.
 Definition mdoc (e : element) : jv :=
   JMap [("_id", JStr (e_gid e)); ("label", JStr (e_label e)); ("to", JStr (e_to e)); ("from", JStr (e_from e));
         ("data", JMap (e_data e))].
-Definition mget_doc (e : element) (path : string) : option jv := dig (mdoc e) (split_dot path).
+Definition mget_doc (e : element) (path : string) : option jv := dig_map (mdoc e) (split_dot path).
 
 (* ---- where the two sides are comparable ---- *)
 Definition is_num (v : jv) : bool := match v with JNum _ => true | _ => false end.
